@@ -69,7 +69,7 @@ CHECKS = {
    category='model_checking', design_ref='DESIGN.md §5.11',
    technique='TLA+ model of key re-exchange on a busy connection (specs/Transport/Rekey.tla) model-checked with TLC incl. liveness; behaviours replayed packet by packet into a real pair (spec->code); executions recorded from naturally scheduled sessions validated by TLC against the spec (code->spec, RekeyTrace.tla, with binding controls); busy live sessions decoded by the independent decoder',
    text='TLC exhausts application sends from both sides interleaved with every step of (repeated, possibly simultaneous) key re-exchanges against FIFOExactlyOnce/NoKeyMismatch/OnlyKexBetween/EpochsInStep and the liveness property Completes (the flush-before-NEWKEYS variant is rejected); hundreds of behaviours are replayed at packet granularity with emitted message kinds, pending packets and received data compared after every step; live sessions with byte limits from 1 upward on several cipher families with requests and channel opens in flight must echo intact, emit only kex messages between KEXINIT and NEWKEYS, keep the session id, and be decodable by an independent decoder that switches to freshly derived keys at every NEWKEYS.',
-   note='Trusted: TLC, hooks pkt_out/keylog, wire.py. Replay thresholds are 0/1 application packet, recorded traces use byte limits of 1 byte to 4 packets (also half-packet offsets); time-based re-keying shares the trigger path and is not driven by the virtual clock. Algorithm change between exchanges is not exercised.'),
+   note='Trusted: TLC, hooks pkt_out/keylog, wire.py. Replay thresholds are 0/1 application packet, recorded traces use byte limits of 1 byte to 4 packets (also half-packet offsets); time-based re-keying shares the trigger path and is not driven by the virtual clock. Algorithm changes between exchanges are exercised in live sessions (both ends switch cipher/MAC/compression/kex preferences in mid-session) and judged by the independent decoder; the TLA+ model abstracts algorithms into key epochs.'),
  'C13': dict(
    category='model_checking', design_ref='DESIGN.md §5.13',
    technique='TLA+ models of path mapping, of request sequences over a small file system with symlinks/hard links and of SCP/recursive-get downloads (specs/PathConfine) model-checked with TLC; cases and behaviours replayed against the real chroot SFTP server, SCP sink and recursive get with a system-call monitor',
